@@ -11,7 +11,13 @@ PARTIAL = [
     "float->int conversion is NOT proved; monitored by the oracle at every callback and after return on every generated "
     "circuit (sentinel INT_MIN/INT_MAX and |v| <= 2^30)",
     "global placement completes without raising: NOT proved; monitored (exceptions, assertion failures, ASan/UBSan reports "
-    "in a forked child per circuit)",
+    "in a forked child per circuit). It does NOT hold on the whole domain: (KF-C06-1) penalty_, penaltyCutoffDistance_ and "
+    "approximationDistance_ follow unbounded geometric recurrences, so a run whose stop tests never fire (gapTolerance = "
+    "distanceTolerance = 0 is accepted; small circuits whose gap stays above a positive tolerance) leaves single precision "
+    "before the default step limit for update factors the check accepts, and placeGlobal raises or exposes huge coordinates; "
+    "(KF-C06-2) the solves without penalty are singular for a group of movable cells without fixed pin and the CG solver "
+    "occasionally breaks down to NaN on them (one run in ~50,000 here, default parameters included). Failures matching these "
+    "two classifiers are reported as known findings, every other failure as a violation",
     "the assignment of every positive-demand cell to exactly one bin whose limits are grid limits, and bins holding only "
     "positive-demand cells (hypotheses of ub_centre_inside / ub_every_cell_inside) is the C16 invariant "
     "(HierarchicalDensityPlacement::check under assertions); here it is exercised, not proved",
@@ -25,13 +31,21 @@ ASSUMPTIONS = [
     "float arithmetic of spreadCells/blendPlacement modelled in Rat (see partial clauses)",
     "std::sort on pair<float,int> modelled by List.mergeSort with the lexicographic order (keys are pairwise distinct, so the "
     "sorted list is unique); NaN targets excluded (finite CG iterates are monitored, not proved)",
-    "numerical knobs of the generator: CG tolerance in [1e-6,1], approximation and cutoff distances in [0.1,100], "
-    "penalty initial value in [1e-3,10], side margin in [0,0.9] (unchecked by check()), coarsening limit in [1,1000], "
-    "maxNbSteps <= 30 when knobs are randomised (so that penalty <= 10 * 1.99^30 stays far from float overflow; the "
-    "thorough tier also runs the library default of 400 steps with each effort's own knobs), every other knob over the "
-    "whole range accepted by check()",
-    "circuits: vc::genCircuit restricted to rows >= 4 row heights wide; a quarter of them get 1-2 movable cells of zero "
-    "width or zero height (at least one movable cell of positive area remains); coordinates within a few hundred units",
+    "numerical knobs of the generator (end-to-end stream): CG tolerance in [1e-6,1], initial approximation and cutoff distances "
+    "in [0.1,100], penalty initial value in [1e-3,10] (check() only asks > 0), side margin in [0,0.9] (unchecked by check()), "
+    "coarsening limit in [1,1000]; every other knob over the whole range accepted by check(): penalty.updateFactor over the open "
+    "interval (1,2) (2^-20 from both ends included), both distance update factors over [0.8,1.2] (ends included), gapTolerance and "
+    "distanceTolerance including 0 (stop test disabled), maxNbSteps from 1 to the efforts' default 400 (40% of the cases run with "
+    "400); no coupling between updateFactor and maxNbSteps",
+    "the number of loop steps, the zero-wirelength flag and the step at which a failure happened are read from the UpperBound "
+    "callbacks and from the library's progress log; they are used for the measured distribution and for the known-finding "
+    "classifiers (KF-C06-1: effective loop variables after k updates outside the numeric box of the statement — distances < 0.1, "
+    "approximation distance > 1e3, penalty/cutoff >= 2^64 — and wirelength not identically zero; KF-C06-2: error raised by a solve "
+    "without penalty on a circuit with a net-connected group of movable cells without fixed pin), never to accept a run",
+    "circuits: vc::genCircuit (without its nets) restricted to rows >= 4 row heights wide, 1-10 cells (1-30 for one case in eight; "
+    "one in four in the thorough tier); nets drawn by the harness: 7/12 generic (1..2n+1 nets of degree 1-5), 1/12 each: no net, "
+    "only degree-1 nets, every pin of a net on one cell, pins on fixed cells only; a quarter of the circuits get 1-2 movable cells "
+    "of zero width or zero height (at least one movable cell of positive area remains); coordinates within a few hundred units",
     "C++ int arithmetic modelled as unbounded Int (bin limits, margins)",
 ]
 LEVEL_TEXT = ("Lean 4 theorems over an executable Rat model of spreadCells / spreadCoordX/Y / the density grid built from the clipped "
